@@ -1325,7 +1325,14 @@ func (c *ExecCtx) runGhostAnchors(st *State, s ast.Stmt, when string) {
 				if call, ok := ast.Unparen(r).(*ast.CallExpr); ok {
 					if id, ok := call.Fun.(*ast.Ident); ok && id.Name == "append" && len(call.Args) > 0 && exprString(call.Args[0]) == target {
 						g.used = true
-						c.execGhost(st, g, s.Pos())
+						// $app: the appended slice for `append(x, ys...)`
+						binds := map[string]Val{}
+						if call.Ellipsis.IsValid() && len(call.Args) == 2 {
+							c.u.quiet++
+							binds["ʃapp"] = c.eval(st, call.Args[1])
+							c.u.quiet--
+						}
+						c.execGhostWith(st, g, s.Pos(), binds)
 					}
 				}
 			}
